@@ -7,7 +7,11 @@ use std::collections::BTreeMap;
 use std::path::PathBuf;
 use std::process::Command;
 
-const ITEM_ARGS: [&str; 6] = ["", "swift = \"Equatable\"", "kotlin = \"JvmInline\"", "serialized_as = \"String\"", "redacted", "swift = \"Hashable\", redacted"];
+const ITEM_ARGS: [&str; 8] = [
+    "", "swift = \"Equatable\"", "kotlin = \"JvmInline\"", "serialized_as = \"String\"", "redacted", "swift = \"Hashable\", redacted",
+    // two item-level attributes on one item (rendered inside `#[typeshare(…)]`, so the text closes the first and opens the second)
+    "swift = \"Codable\")]\n#[typeshare(kotlin = \"JvmInline\"", ")]\n#[typeshare(swift = \"Equatable\"",
+];
 const HELPERS: [&[&str]; 6] = [
     &[],
     &["#[typeshare(skip)]"],
